@@ -22,6 +22,9 @@ type NetEvent struct {
 	Phase    string `json:"phase"` // "req" or "resp"
 	MsgType  uint8  `json:"msg"`   // request message type (from the path)
 	RespType int    `json:"resp_type,omitempty"`
+	// OrigRespType is the response type as produced by the server, before any
+	// hook altered the event.
+	OrigRespType int `json:"-"`
 	Status   int    `json:"status,omitempty"`
 	Token    string `json:"-"`
 	Body     []byte `json:"-"`
@@ -205,7 +208,7 @@ func (n *Net) Deliver(ev *NetEvent) (*http.Response, error) {
 	if v, err := strconv.Atoi(strings.TrimSpace(res.Header.Get("Message-Type"))); err == nil {
 		rt = v
 	}
-	rev := &NetEvent{From: ev.To, To: ev.From, Phase: "resp", MsgType: ev.MsgType, RespType: rt, Status: res.StatusCode,
+	rev := &NetEvent{From: ev.To, To: ev.From, Phase: "resp", MsgType: ev.MsgType, RespType: rt, OrigRespType: rt, Status: res.StatusCode,
 		Token: res.Header.Get("Authorization"), Body: rbody, OrigBody: rbody, ContentType: res.Header.Get("Content-Type"), Session: ev.Session,
 		Adversary: ev.Adversary, ReqSeq: ev.Seq}
 	n.K.Yield("net.resp")
